@@ -64,3 +64,23 @@ Theorem C17_generated_no_request_time_shared_writes :
   shared_escapes = [].
 Proof. apply census_ok_spec. vm_compute. reflexivity. Qed.
 Print Assumptions C17_generated_no_request_time_shared_writes.
+
+(* The application object itself is only read while a request is answered:
+   the methods reachable from __call__ / __request__ through self (listed
+   from the current source) contain no store and no mutating call whose
+   target is part of self, directly, through a local alias, a loop variable
+   or a dictionary view.  Registration order of routes, hook lists and the
+   configuration are therefore the same for every request of a history. *)
+From Coq Require Import String.
+Local Open Scope string_scope.
+Local Open Scope list_scope.
+Theorem C17_generated_request_time_code_leaves_the_application_alone :
+  instance_writes = [] /\
+  existsb (String.eqb "wsgi.Application.__request__")
+          request_time_methods = true /\
+  existsb (String.eqb "wsgi.Application.handler_from_table")
+          request_time_methods = true /\
+  existsb (String.eqb "wsgi.Application.error_from_table")
+          request_time_methods = true.
+Proof. vm_compute. repeat split; reflexivity. Qed.
+Print Assumptions C17_generated_request_time_code_leaves_the_application_alone.
